@@ -85,7 +85,7 @@ PyEq(a, b) ==
   ELSE a = b
 
 \* names that resolve to Python builtins when the template does not define them
-Builtins == {"len", "str", "id"}
+Builtins == {"len", "str", "id", "AttributeError", "LookupError"}
 
 \* Exception classes the pipe operator and exists: recover from.
 \* (subclasses are caught with their bases: SubLookup is an application-defined subclass of LookupError,
